@@ -54,7 +54,7 @@ theorem keyEqList_refl {F : FloatOps} (hF : FloatLaws F) :
     exact ⟨keyEq_refl hF x h1.1 h2.1, keyEqList_refl hF xs h1.2 h2.2⟩
 end
 
-theorem hashEq_refl (k : Val) : hashEq k k = true := by simp [hashEq]
+theorem hashEq_refl (F : FloatOps) (k : Val) : hashEq F k k = true := by simp [hashEq]
 
 /-- the matcher used by `veqMap` -/
 def eqMatcher (F : FloatOps) (mech : Bool) (n : Nat) : Val → Val → Bool :=
@@ -63,7 +63,7 @@ def eqMatcher (F : FloatOps) (mech : Bool) (n : Nat) : Val → Val → Bool :=
 theorem eqMatcher_refl (F : FloatOps) (mech : Bool) (n : Nat) (k : Val) (h : keyEq F k k = true) :
     eqMatcher F mech n k k = true := by
   unfold eqMatcher getMatch keyEqH
-  cases mech <;> simp [h, hashEq_refl]
+  cases mech <;> simp [h]
   split <;> simp [h, hashEq_refl]
 
 theorem eqMatcher_sound (F : FloatOps) (mech : Bool) (n : Nat) (a b : Val)
